@@ -14,7 +14,7 @@ RULE = (
     'beyond the same end).  Oracle: value at every knot; constancy beyond both ends; integrate(a,b) against the area '
     'under the same callable computed by 5-point Gauss-Legendre on each data-knot interval (exact for the cubic '
     'pieces) plus rectangles outside (1e-10 relative to the scale of the area); additivity over adjacent ranges and '
-    'antisymmetry.  Non-trivial: limits straddling a domain end or reversed; distinct by (knot-set digest, class of '
+    'antisymmetry; a function built three sets earlier is re-checked after newer spline objects exist.  Non-trivial: limits straddling a domain end or reversed; distinct by (knot-set digest, class of '
     'limits).'
 )
 ASSUMPTIONS = ['FITPACK\'s interpolating cubic spline has its breakpoints at data knots only, so 5-point Gauss-Legendre per data interval is exact']
@@ -25,6 +25,7 @@ REQUIRED = {
         'extrapolation-checked': 1000,
         'integrals-vs-area': 10000,
         'additivity-triples': 5000,
+        'integrals-of-older-objects-rechecked': 1000,
         'dumped-sy-values-checked': 200,
         'integer-limits': 500,
         'class:below-below': 100, 'class:above-above': 100, 'class:below-above': 100, 'class:inside-inside': 100,
@@ -136,6 +137,10 @@ def check_set(ctx, rng, params, npairs):
             rec.mark_nontrivial(core.digest((knots, vals, cls, a > b)))
     if len(rec.samples) < 3:
         rec.sample({'knots_mm': knots, 'sy_values': vals, 'example_limits': [a, b], 'integrate': iab, 'area_by_quadrature': ref})
+    _OLDER.append((sy, f, knots, vals, fmax, case))
+    if len(_OLDER) > 3:
+        _OLDER.pop(0)
+    recheck_older(ctx, rng)
 
 
 def check_dump(ctx, rng):
@@ -165,6 +170,33 @@ def check_dump(ctx, rng):
             rec.violation('dumped-specific-yield-differs-from-the-clamped-interpolating-spline', {'level_cm': z_cm, 'dumped': v, 'expected': exp, 'knots': knots, 'values': vals}, case, 'dump')
             return
     rec.hit('dumped-sy-values-checked', len(rows))
+
+
+_OLDER = []
+
+
+def recheck_older(ctx, rng):
+    """Integrals of a function built earlier, after other spline objects have been
+    created since (specific yields and transmissivities of other sites)"""
+    import spowtd.transmissivity as t_mod
+
+    rec = ctx.rec
+    if len(_OLDER) < 2:
+        return
+    # something else gets built in between, as in a script handling several sites
+    t_mod.create_transmissivity_function(dict(gen_params.spline_T(rng)))
+    sy, f, knots, vals, fmax, case = _OLDER[0]
+    span = knots[-1] - knots[0]
+    for _ in range(6):
+        a, b = draw_limit(rng, knots), draw_limit(rng, knots)
+        rec.case()
+        got = float(sy.integrate(a, b))
+        ref = oh.clamped_integral(f, a, b, knots)
+        if abs(got - ref) > 1e-10 * max(fmax * (abs(b - a) + span), 1e-300):
+            rec.violation('integral-of-an-older-function-differs-from-its-area-after-other-functions-were-built',
+                          {'limits': [a, b], 'integrate': got, 'area': ref, 'knots': knots, 'values': vals}, dict(case, limits=[a, b, a]), 'spline_sy')
+            return
+        rec.hit('integrals-of-older-objects-rechecked')
 
 
 def run(ctx):
